@@ -1,7 +1,7 @@
 """C14 The phase setting changes phase only: magnitude, stop-band rejection, output length and rate as for linear phase;
 linear phase symmetric about the input instant; p and 100-p mirror images.
 
-proof      lean/SoxrModel/Properties/C14.lean (17 theorems; models: Phase/Model.lean = selection step of lsx_fir_to_phase,
+proof      lean/SoxrModel/Properties/C14.lean (21 theorems; models: Phase/Model.lean = selection step of lsx_fir_to_phase,
            lsx_make_lpf index structure, dft_stage_init arithmetic; Cr/Model.lean = count model) + axiom audit
 tie        harness/phase/sel.c runs the REAL lsx_fir_to_phase (index-valued markers injected behind its last FFT through
            ld --wrap: every output tap names the index it was read from), the REAL dft_stage_init and lsx_design_lpf on
